@@ -10,7 +10,7 @@ use std::io::{BufRead, Write};
 /// Write a case file: `<flags> <pattern cps> <haystack cps> <start>` per line (default build only).
 pub fn gen_cases(rep: &mut Report, n: usize, seed: u64, out: &str, ascii_ok: bool) {
     let mut rng = Rng::new(seed);
-    let cfg = GenCfg { max_depth: 3, ..GenCfg::default() };
+    let cfg = GenCfg { max_depth: 3, first_term_bias: true, ..GenCfg::default() };
     std::fs::create_dir_all(out).unwrap();
     let mut f = std::io::BufWriter::new(std::fs::File::create(format!("{}/cases.txt", out)).unwrap());
     let mut done = 0;
